@@ -118,6 +118,7 @@ def check(sim, case, st):
     overwrite = '--overwrite' in argv
     listing = OR.parse_restore_listing(r.outs)
     if listing is None or not listing:
+        st.probes['premise-not-met:nothing-listed'] += 1         # what must be listed is C13's
         return []
     line = spec.get('stdin', '').split('\n', 1)[0]
     idxs, det = MR.parse(line, len(listing))
